@@ -133,6 +133,19 @@ pub fn replay(cases: &str, verdicts: &str, depth: usize) {
             w.v.check(hit.is_some(), kind, "default() is some fresh object", &json!({"kind": kind}), json!({"differs_from_documented_default": diff}));
         }
     }
+    // location-scale laws in other units: the seeded stream of Normal(mu s, sigma s) (Gumbel likewise) is s times the stream of
+    // Normal(mu, sigma) for s = 2^-70 and 2^40 - draws of a law with a tiny but positive scale are not a point mass
+    for kind in ["Normal", "Gumbel"] {
+        for (mu, sg) in [(0.0f64, 1.0f64), (10.0, 2.0), (-3.0, 0.5)] {
+            let base = D::new(kind, &[mu, sg]).and_then(|d| d.stream(seed, 16));
+            for e in [-70i32, 40] {
+                let f = 2f64.powi(e);
+                let sc = D::new(kind, &[mu * f, sg * f]).and_then(|d| d.stream(seed, 16));
+                let ok = match (&base, &sc) { (Some(a), Some(b)) => a.len() == b.len() && a.iter().zip(b).all(|(x, y)| (f64::from_bits(*x) * f).to_bits() == *y) && b.iter().any(|y| f64::from_bits(*y) != mu * f), _ => false };
+                w.v.check(ok, kind, "stream in other units", &json!({"kind": kind, "mu": mu, "scale": sg, "units_log2": e}), json!({"unit": base.as_ref().map(|a| a.iter().take(3).map(|x| f64::from_bits(*x)).collect::<Vec<_>>()), "scaled": sc.as_ref().map(|a| a.iter().take(3).map(|x| f64::from_bits(*x)).collect::<Vec<_>>())}));
+            }
+        }
+    }
     for (kind, p) in order.iter() {
         w.v.cases += 1;
         let obj = match D::new(kind, &params_of(kind, p)) {
@@ -225,6 +238,9 @@ pub fn replay_extreme(cases: &str, verdicts: &str) {
         let mut p = base.clone();
         p[i] = val;
         let fresh = D::new(kind, &p);
+        // what a fresh object of these parameters shows when constructed and observed in a thread of its own (density probes, moments,
+        // stream): an object moved here by a setter / bulk update shows the same, whatever this thread has evaluated before
+        let fresh_obs: Option<Vec<String>> = { let (k2, p2) = (kind.to_string(), p.clone()); std::thread::spawn(move || D::new(&k2, &p2).map(|d| observe(&d, 4242))).join().ok().flatten() };
         // verdict "alike" (the smallest subnormal): whatever the constructor decides, setter and bulk update decide the same,
         // and an accepted value leaves the object equal to the fresh one
         let alike = c["valid"].as_str() == Some("alike");
@@ -236,8 +252,18 @@ pub fn replay_extreme(cases: &str, verdicts: &str) {
         if let Some(mut o) = D::new(kind, &base) {
             let before = o.debug();
             let ok = o.set(i, val);
-            let same = match (&fresh, valid) { (Some(f), true) => o.debug() == f.debug(), (_, false) => o.debug() == before, _ => true };
+            let same = match (&fresh, valid) { (Some(f), true) => o.debug() == f.debug() && (!ok || fresh_obs.as_ref().map(|fo| &observe(&o, 4242) == fo).unwrap_or(true)), (_, false) => o.debug() == before, _ => true };
             v.check(ok == valid && same, kind, &format!("set{} {}", i + 1, class), &id, json!({"accepted": ok, "state_as_expected": same, "debug": o.debug()}));
+            // two tiny values in a row (the value, then three times it - closer to one another than machine epsilon in absolute terms): the
+            // second setter call is honoured like the first
+            if ok && valid && s > 0.0 && e < -50 && e > -1070 {
+                let v2 = val * 3.0; let mut p2 = p.clone(); p2[i] = v2;
+                let twin2: Option<Vec<String>> = { let (k2, q2) = (kind.to_string(), p2.clone()); std::thread::spawn(move || D::new(&k2, &q2).map(|d| observe(&d, 4242))).join().ok().flatten() };
+                let _ = observe(&o, 4242);
+                let ok2 = o.set(i, v2);
+                let same2 = match &twin2 { Some(t) => ok2 && &observe(&o, 4242) == t, None => true };
+                v.check(same2, kind, &format!("set{} two tiny values in a row", i + 1), &json!({"kind": kind, "field": i + 1, "first": fj(val), "second": fj(v2), "base": fjs(&base)}), json!({"accepted": ok2}));
+            }
         }
         if let Some(mut o) = D::new(kind, &base) {
             let before = o.debug();
